@@ -435,7 +435,7 @@ type c13GRunOut struct {
 	log      *c13Log
 }
 
-func c13RunG(scripts *c13GScripts, mkClient func() *Client, baseURL string, sc *c13GScenario, cfg *c13DumpCfg, viaSet bool, timeout time.Duration) c13GRunOut {
+func c13RunG(scripts *c13GScripts, mkClient func() *Client, baseURL string, sc *c13GScenario, cfg *c13DumpCfg, viaSet bool, timeout time.Duration, clone bool) c13GRunOut {
 	scripts.install(sc)
 	scripts.reset()
 	cl := mkClient().SetTimeout(timeout)
@@ -444,6 +444,12 @@ func c13RunG(scripts *c13GScripts, mkClient func() *Client, baseURL string, sc *
 			SetCommonRetryCondition(func(resp *Response, err error) bool {
 				return err != nil || (resp != nil && resp.Response != nil && resp.StatusCode >= 500)
 			})
+	}
+	out := c13GRunOut{log: &c13Log{}}
+	if cfg != nil {
+		cl = cfg.applyClient(cl, out.log, viaSet)
+	} else if clone {
+		cl = cl.Clone()
 	}
 	rq := cl.R()
 	for _, h := range sc.headers {
@@ -456,9 +462,8 @@ func c13RunG(scripts *c13GScripts, mkClient func() *Client, baseURL string, sc *
 		body := sc.body
 		rq.SetBody(func() (io.ReadCloser, error) { return io.NopCloser(strings.NewReader(body)), nil })
 	}
-	out := c13GRunOut{log: &c13Log{}}
 	if cfg != nil {
-		cfg.apply(cl, rq, out.log, viaSet)
+		cfg.applyRequest(rq, out.log)
 	}
 	url := baseURL + sc.path
 	if sc.query != "" {
@@ -544,6 +549,9 @@ func c13GenCfg(s *verifh.Session, c int, allowReqAsync *int, sc *c13GScenario) (
 		}
 		cfg.rq = c13GenDumper(s, 20, sub2, rqAsync)
 	}
+	if cfg.cl != nil && r.Intn(5) == 0 {
+		cfg.clone = true
+	}
 	return cfg, level, subset
 }
 
@@ -568,14 +576,15 @@ func TestVerif_C13_e2eh2(t *testing.T) {
 		feature := verifh.Pick(r, features)
 		sc := c13GenGScenario(s, flow, feature, 100000)
 		cfg, level, subset := c13GenCfg(s, c, &reqAsync, sc)
+		cfg.clone = false // Client.Clone() does not carry the h2c dial setup of this lane (clone fidelity is C19's subject)
 		timeout := 5 * time.Second
 		margin := 3 * time.Second
 		if cfg.rq != nil && cfg.rq.async {
 			timeout, margin = 700*time.Millisecond, 800*time.Millisecond
 		}
 		viaSet := r.Intn(2) == 0
-		off, _ := c13GuardG(timeout+margin, func() c13GRunOut { return c13RunG(&peer.c13GScripts, mk, base, sc, nil, false, timeout) })
-		on, hung := c13GuardG(timeout+margin, func() c13GRunOut { return c13RunG(&peer.c13GScripts, mk, base, sc, &cfg, viaSet, timeout) })
+		off, _ := c13GuardG(timeout+margin, func() c13GRunOut { return c13RunG(&peer.c13GScripts, mk, base, sc, nil, false, timeout, cfg.clone) })
+		on, hung := c13GuardG(timeout+margin, func() c13GRunOut { return c13RunG(&peer.c13GScripts, mk, base, sc, &cfg, viaSet, timeout, cfg.clone) })
 		p := c13GPending(fmt.Sprintf("h2 #%d %s %s %s", c, sc.name, cfg.String(), sc.method),
 			fmt.Sprintf("%s %s body=%dB via %q; %s; result %s", sc.method, sc.name, len(sc.body), sc.bodyVia, cfg.String(), c13Clip(off.res.String(), 160)),
 			sc, cfg, off, on, true)
